@@ -1,4 +1,406 @@
-import GeomV.C17.Model
-import GeomV.C17.Spec
+import GeomV.C17.Lemmas
+import GeomV.C17.IntFmt
+/-!
+# C17 — property theorems (model of encoding/wkt vs. the independent OGC 06-103r4 parser)
+
+* `C17_roundtrip`    for the five supported types with at least one member and one vertex per member
+                     and finite coordinates, the encoder's text is accepted by the OGC parser and
+                     parses to the same geometry (type, nesting, coordinates), under the `strconv`
+                     contract `NumFmt` (hypothesis, with a proved instance `C17_numfmt_int`).
+* `C17_unsupported`  MultiPoint, GeometryCollection, *Bounds (and nil) are rejected with an error.
+* `C17_guard_exact`  the guard is exact: a supported finite geometry that violates it is still encoded
+                     (e.g. `LINESTRING()`, `POLYGON(())`, `MULTILINESTRING(())`) and the OGC parser rejects
+                     that text.
+No bound on member counts, ring counts or vertex counts.
+-/
+set_option linter.unusedSimpArgs false
+set_option linter.unusedVariables false
 namespace GeomV.C17
+open GeomV GeomV.C17.Ogc
+
+variable {F : Type} {fin : F → Bool} {fmt : F → List Char} {parseNum : List Char → Option F}
+
+theorem coords_ne_nil (fmt : F → List Char) (p : Pt F) : coords fmt p ≠ [] := by
+  simp [coords]
+
+theorem ringText_ne_nil (fmt : F → List Char) (ps : List (Pt F)) : ringText fmt ps ≠ [] := by
+  simp [ringText, paren]
+
+theorem polyText_ne_nil (fmt : F → List Char) (rs : List (List (Pt F))) : polyText fmt rs ≠ [] := by
+  simp [polyText, paren]
+
+/-- `<linestring text>` reads a parenthesised non-empty point list back -/
+theorem lineStringText_ring (h : NumFmt fin fmt parseNum) (ps : List (Pt F)) (hne : ps ≠ [])
+    (hfin : ps.all (ptFinite fin) = true) (fuel : Nat) (hfuel : (ringText fmt ps).length ≤ fuel)
+    (rest : List Char) :
+    lineStringText parseNum fuel (ringText fmt ps ++ rest) = .ok (ps, rest) := by
+  cases ps with
+  | nil => exact absurd rfl hne
+  | cons b bs =>
+    have hc := items_count_le (coords fmt) (b :: bs) (fun x _ => coords_ne_nil fmt x)
+    have hf : bs.length + 1 ≤ fuel := by
+      simp [ringText, paren, pointsText] at hfuel hc; omega
+    have := sepTail_items (point parseNum) (coords fmt) b bs rest fuel hf
+      (fun x hx d r hd => point_coords h x (List.all_eq_true.mp hfin x hx) d r hd)
+    simp [lineStringText, ringText, paren, pointsText, List.append_assoc] at this ⊢
+    rw [listText_paren]; exact this
+
+/-- `<polygon text>` reads a parenthesised non-empty list of non-empty rings back -/
+theorem polygonText_poly (h : NumFmt fin fmt parseNum) (rs : List (List (Pt F))) (hne : rs ≠ [])
+    (hmem : ∀ r ∈ rs, r ≠ []) (hfin : rs.all (·.all (ptFinite fin)) = true) (fuel : Nat)
+    (hfuel : (polyText fmt rs).length ≤ fuel) (rest : List Char) :
+    polygonText parseNum fuel (polyText fmt rs ++ rest) = .ok (rs, rest) := by
+  cases rs with
+  | nil => exact absurd rfl hne
+  | cons b bs =>
+    have hc := items_count_le (ringText fmt) (b :: bs) (fun x _ => ringText_ne_nil fmt x)
+    have hf : bs.length + 1 ≤ fuel := by
+      simp [polyText, paren, ringsText] at hfuel hc; omega
+    have := sepTail_items (lineStringText parseNum fuel) (ringText fmt) b bs rest fuel hf
+      (fun x hx d r _ => lineStringText_ring h x (hmem x hx) (List.all_eq_true.mp hfin x hx) fuel
+        (by
+          have := items_mem_le (ringText fmt) (b :: bs) x hx
+          simp [polyText, paren, ringsText] at hfuel this ⊢; omega) (d :: r))
+    simp [polygonText, polyText, paren, ringsText, List.append_assoc] at this ⊢
+    rw [listText_paren]; exact this
+
+theorem word_kw (kw : List Char) (hk : ∀ c ∈ kw, isLetter c = true ∧ upper c = c ∧ isWs c = false)
+    (hne : kw ≠ []) (r : List Char) : word (kw ++ '(' :: r) = (kw, '(' :: r) := by
+  have h1 : skipWs (kw ++ '(' :: r) = kw ++ '(' :: r := by
+    cases kw with
+    | nil => exact absurd rfl hne
+    | cons c cs => exact skipWs_cons _ _ (hk c (by simp)).2.2
+  have h2 := takeWhile_stop isLetter kw '(' r (fun c hc => (hk c hc).1) (by decide)
+  have h3 := dropWhile_stop isLetter kw '(' r (fun c hc => (hk c hc).1) (by decide)
+  have h4 : kw.map upper = kw := by
+    have : ∀ l : List Char, (∀ c ∈ l, upper c = c) → l.map upper = l := by
+      intro l; induction l with
+      | nil => simp
+      | cons a l ih => intro h; simp [h a (by simp), ih (fun c hc => h c (by simp [hc]))]
+    exact this kw (fun c hc => (hk c hc).2.1)
+  simp [word, h1, h2, h3, h4]
+
+theorem parse_tail_nil {g : Geom F} {s : List Char}
+    (h : ∀ fuel, s.length ≤ fuel → tagged parseNum fuel s = .ok (g, [])) : parse parseNum s = .ok g := by
+  simp [parse, h s.length (Nat.le_refl _), skipWs, bind, Except.bind, pure, Except.pure]
+
+/-- **C17_roundtrip** (the statement's main clause). For every formatter/literal-parser pair that
+satisfies the `strconv` contract `NumFmt`, and every Point, LineString, MultiLineString, Polygon or
+MultiPolygon with at least one member, at least one vertex per member and finite coordinates, the text
+produced by the encoder is accepted by the independent OGC parser and parses to the *same* geometry
+(same constructor, same nesting, same coordinates). -/
+theorem C17_roundtrip (h : NumFmt fin fmt parseNum) (g : Geom F) (hs : supported g = true)
+    (hne : everyMemberNonEmpty g = true) (hf : allFinite fin g = true) :
+    ∃ txt, encode fmt g = .ok txt ∧ parse parseNum txt = .ok g := by
+  cases g with
+  | point p =>
+    refine ⟨_, encode_point fmt p, parse_tail_nil ?_⟩
+    intro fuel _
+    have hw := word_kw "POINT".toList (by decide) (by decide) (coords fmt p ++ [')'])
+    have hp := point_coords h p (by simpa [allFinite] using hf) ')' [] (Or.inr rfl)
+    simp [paren] at hw ⊢
+    simp [tagged, hw, pointText, word_lparen, lit, skipWs_lparen, skipWs_rparen, hp,
+      bind, Except.bind, pure, Except.pure]
+  | lineString ps =>
+    refine ⟨_, encode_lineString fmt ps, parse_tail_nil ?_⟩
+    intro fuel hfuel
+    have hps : ps ≠ [] := by intro e; simp [everyMemberNonEmpty, e] at hne
+    have hw := word_kw "LINESTRING".toList (by decide) (by decide) (pointsText fmt ps ++ [')'])
+    have hl := lineStringText_ring h ps hps (by simpa [allFinite] using hf)
+      fuel (by simp at hfuel ⊢; omega) []
+    simp [ringText, paren] at hw hl ⊢
+    simp [tagged, hw, hl, bind, Except.bind, pure, Except.pure]
+  | polygon rs =>
+    refine ⟨_, encode_polygon fmt rs, parse_tail_nil ?_⟩
+    intro fuel hfuel
+    simp [everyMemberNonEmpty] at hne
+    have hrs : rs ≠ [] := by intro e; simp [e] at hne
+    have hw := word_kw "POLYGON".toList (by decide) (by decide) (ringsText fmt rs ++ [')'])
+    have hl := polygonText_poly h rs hrs (fun r hr e => by have := hne.2 r hr; simp [e] at this)
+      (by simpa [allFinite] using hf) fuel (by simp at hfuel ⊢; omega) []
+    simp [polyText, paren] at hw hl ⊢
+    simp [tagged, hw, hl, bind, Except.bind, pure, Except.pure]
+  | multiLineString ls =>
+    simp [everyMemberNonEmpty] at hne
+    cases ls with
+    | nil => simp at hne
+    | cons l ls =>
+      refine ⟨_, encode_multiLineString fmt l ls, parse_tail_nil ?_⟩
+      intro fuel hfuel
+      -- a MultiLineString text has the shape of a polygon text
+      have hw := word_kw "MULTILINESTRING".toList (by decide) (by decide) (ringsText fmt (l :: ls) ++ [')'])
+      have hl := polygonText_poly h (l :: ls) (by simp)
+        (fun r hr e => by have := hne.2 r hr; simp [e] at this)
+        (by simpa [allFinite] using hf) fuel
+        (by simp [polyText, ringsText, paren] at hfuel ⊢; omega) []
+      simp [polyText, ringsText, paren, polygonText] at hw hl ⊢
+      simp [tagged, multiLineStringText, hw, hl, bind, Except.bind, pure, Except.pure]
+  | multiPolygon ps =>
+    simp [everyMemberNonEmpty] at hne
+    cases ps with
+    | nil => simp at hne
+    | cons p ps =>
+      refine ⟨_, encode_multiPolygon fmt p ps, parse_tail_nil ?_⟩
+      intro fuel hfuel
+      have hw := word_kw "MULTIPOLYGON".toList (by decide) (by decide)
+        (items ((p :: ps).map (polyText fmt)) ++ [')'])
+      have hfin : ∀ x ∈ p :: ps, x.all (·.all (ptFinite fin)) = true := by
+        simpa [allFinite] using hf
+      have hc := items_count_le (polyText fmt) (p :: ps) (fun x _ => polyText_ne_nil fmt x)
+      have hfu : ps.length + 1 ≤ fuel := by
+        simp [paren] at hc hfuel ⊢; omega
+      have hl := sepTail_items (polygonText parseNum fuel) (polyText fmt) p ps [] fuel hfu
+        (fun x hx d r _ => polygonText_poly h x
+          (by intro e; have := (hne.2 x hx).1; simp [e] at this)
+          (fun r hr e => by have := (hne.2 x hx).2 r hr; simp [e] at this)
+          (hfin x hx) fuel
+          (by
+            have := items_mem_le (polyText fmt) (p :: ps) x hx
+            simp [paren] at this hfuel ⊢; omega) (d :: r))
+      simp [paren] at hw hl ⊢
+      simp [tagged, multiPolygonText, hw, listText_paren, hl, bind, Except.bind, pure, Except.pure]
+  | multiPoint _ => simp [supported] at hs
+  | collection _ => simp [supported] at hs
+  | bounds _ _ => simp [supported] at hs
+  | nil => simp [supported] at hs
+
+/-- **C17_unsupported** ("other geometry types are rejected with an error rather than mis-encoded"). -/
+theorem C17_unsupported (fmt : F → List Char) (g : Geom F) (hs : supported g = false) :
+    encode fmt g = .error .unsupported := by
+  cases g <;> simp [supported] at hs <;> rfl
+
+/-! ### The guard is exact -/
+
+/-- an empty `()` is not a `<linestring text>` -/
+theorem lineStringText_empty (fuel : Nat) (r : List Char) :
+    ∃ e, lineStringText parseNum fuel ('(' :: ')' :: r) = .error e := by
+  cases fuel with
+  | zero => exact ⟨.fuel, by simp [lineStringText, listText_paren, sepTail]⟩
+  | succ f =>
+    refine ⟨.expected "number", ?_⟩
+    simp [lineStringText, listText_paren, sepTail, point, number, skipWs_rparen, List.takeWhile,
+      isNumChar, bind, Except.bind]
+
+/-- an empty `()` is not a `<polygon text>` -/
+theorem polygonText_empty (fuel : Nat) (r : List Char) :
+    ∃ e, polygonText parseNum fuel ('(' :: ')' :: r) = .error e := by
+  cases fuel with
+  | zero => exact ⟨.fuel, by simp [polygonText, listText_paren, sepTail]⟩
+  | succ f =>
+    refine ⟨.expected "(", ?_⟩
+    have hw : word (')' :: r) = ([], ')' :: r) := by
+      simp [word, skipWs_rparen, List.takeWhile, List.dropWhile, isLetter]
+    rw [polygonText, listText_paren]
+    simp [sepTail, lineStringText, listText, hw, lit, skipWs_rparen, bind, Except.bind]
+
+/-- the list production fails as soon as one member's text is rejected by the item parser -/
+theorem sepTail_bad {β : Type} (item : List Char → Except PErr (β × List Char)) (enc : β → List Char)
+    (good : β → Prop) (b : β) (bs : List β)
+    (hg : ∀ x ∈ b :: bs, good x → ∀ d r, (d = ',' ∨ d = ')') → item (enc x ++ d :: r) = .ok (x, d :: r))
+    (hb : ∀ x ∈ b :: bs, ¬ good x → ∀ d r, (d = ',' ∨ d = ')') → ∃ e, item (enc x ++ d :: r) = .error e)
+    (hex : ∃ x ∈ b :: bs, ¬ good x) (rest : List Char) (fuel : Nat) :
+    ∃ e, sepTail item fuel (items ((b :: bs).map enc) ++ ')' :: rest) = .error e := by
+  induction bs generalizing b fuel with
+  | nil =>
+    cases fuel with
+    | zero => exact ⟨_, rfl⟩
+    | succ f =>
+      obtain ⟨x, hx, hbad⟩ := hex
+      simp at hx; subst hx
+      obtain ⟨e, he⟩ := hb x (by simp) hbad ')' rest (Or.inr rfl)
+      exact ⟨e, by simp [items, sepTail, he, bind, Except.bind]⟩
+  | cons c cs ih =>
+    cases fuel with
+    | zero => exact ⟨_, rfl⟩
+    | succ f =>
+      by_cases hgb : good b
+      · have hbk := hg b (by simp) hgb ',' (items ((c :: cs).map enc) ++ ')' :: rest) (Or.inl rfl)
+        have hex' : ∃ x ∈ c :: cs, ¬ good x := by
+          obtain ⟨x, hx, hbad⟩ := hex
+          rcases List.mem_cons.mp hx with rfl | hx'
+          · exact absurd hgb hbad
+          · exact ⟨x, hx', hbad⟩
+        obtain ⟨e, he⟩ := ih c (fun x hx => hg x (by simp at hx ⊢; exact Or.inr hx))
+          (fun x hx => hb x (by simp at hx ⊢; exact Or.inr hx)) hex' f
+        refine ⟨e, ?_⟩
+        simp [items, List.append_assoc] at hbk he ⊢
+        simp [sepTail, hbk, skipWs_comma, he, bind, Except.bind]
+      · obtain ⟨e, he⟩ := hb b (by simp) hgb ',' (items ((c :: cs).map enc) ++ ')' :: rest) (Or.inl rfl)
+        refine ⟨e, ?_⟩
+        simp [items, List.append_assoc] at he ⊢
+        simp [sepTail, he, bind, Except.bind]
+
+/-- a ring list with no ring or with an empty ring is rejected as `<polygon text>` -/
+theorem polygonText_bad (h : NumFmt fin fmt parseNum) (rs : List (List (Pt F)))
+    (hbad : rs = [] ∨ ∃ r ∈ rs, r = []) (hfin : rs.all (·.all (ptFinite fin)) = true) (fuel : Nat)
+    (hfuel : (polyText fmt rs).length ≤ fuel) (rest : List Char) :
+    ∃ e, polygonText parseNum fuel (polyText fmt rs ++ rest) = .error e := by
+  cases rs with
+  | nil => simpa [polyText, ringsText, items, paren] using polygonText_empty (parseNum := parseNum) fuel rest
+  | cons b bs =>
+    have hex : ∃ x ∈ b :: bs, ¬ (x ≠ []) := by
+      rcases hbad with hb | ⟨r, hr, he⟩
+      · simp at hb
+      · exact ⟨r, hr, by simp [he]⟩
+    have := sepTail_bad (lineStringText parseNum fuel) (ringText fmt) (fun x => x ≠ []) b bs
+      (fun x hx hgx d r _ => lineStringText_ring h x hgx (List.all_eq_true.mp hfin x hx) fuel
+        (by
+          have := items_mem_le (ringText fmt) (b :: bs) x hx
+          simp [polyText, paren, ringsText] at hfuel this ⊢; omega) (d :: r))
+      (fun x hx hbx d r _ => by
+        have : x = [] := by simpa using hbx
+        subst this
+        simpa [ringText, pointsText, items, paren] using
+          lineStringText_empty (parseNum := parseNum) fuel (d :: r))
+      hex rest fuel
+    simp [polygonText, polyText, paren, ringsText, List.append_assoc] at this ⊢
+    rw [listText_paren]; exact this
+
+theorem parse_err {s : List Char}
+    (h : ∀ fuel, s.length ≤ fuel → ∃ e, tagged parseNum fuel s = .error e) :
+    ∀ g' : Geom F, parse parseNum s ≠ .ok g' := by
+  obtain ⟨e, he⟩ := h s.length (Nat.le_refl _)
+  intro g'
+  simp [parse, he, bind, Except.bind]
+
+/-- **C17_guard_exact** (the guard "at least one vertex per member" hides nothing). A supported, finite
+geometry that violates the guard — no member, or a member without vertices — is still encoded without
+error, and the independent OGC parser rejects the text (e.g. `LINESTRING()`, `POLYGON(())`,
+`MULTILINESTRING((1 2),())`); together with `C17_roundtrip` the guard is exactly the set of supported
+finite geometries whose output is well-formed. The minimal emitted texts are listed in
+`C17_guard_emitted`. -/
+theorem C17_guard_exact (h : NumFmt fin fmt parseNum) (g : Geom F) (hs : supported g = true)
+    (hf : allFinite fin g = true) (hne : everyMemberNonEmpty g = false) :
+    ∃ txt, encode fmt g = .ok txt ∧ ∀ g', parse parseNum txt ≠ .ok g' := by
+  cases g with
+  | point p => simp [everyMemberNonEmpty] at hne
+  | lineString ps =>
+    have : ps = [] := by simpa [everyMemberNonEmpty] using hne
+    subst this
+    refine ⟨_, encode_lineString fmt [], parse_err ?_⟩
+    intro fuel _
+    have hw := word_kw "LINESTRING".toList (by decide) (by decide) [')']
+    obtain ⟨e, he⟩ := lineStringText_empty (parseNum := parseNum) fuel []
+    refine ⟨e, ?_⟩
+    simp [ringText, pointsText, items, paren] at hw he ⊢
+    simp [tagged, hw, he, bind, Except.bind]
+  | polygon rs =>
+    refine ⟨_, encode_polygon fmt rs, parse_err ?_⟩
+    intro fuel hfuel
+    have hbad : rs = [] ∨ ∃ r ∈ rs, r = [] := by
+      simp [everyMemberNonEmpty] at hne
+      by_cases hr : rs = []
+      · exact Or.inl hr
+      · exact Or.inr (by simpa using hne hr)
+    have hw := word_kw "POLYGON".toList (by decide) (by decide) (ringsText fmt rs ++ [')'])
+    obtain ⟨e, he⟩ := polygonText_bad h rs hbad (by simpa [allFinite] using hf) fuel
+      (by simp at hfuel ⊢; omega) []
+    refine ⟨e, ?_⟩
+    simp [polyText, paren] at hw he ⊢
+    simp [tagged, hw, he, bind, Except.bind]
+  | multiLineString ls =>
+    cases ls with
+    | nil =>
+      refine ⟨_, encode_multiLineString_nil fmt, parse_err ?_⟩
+      intro fuel hfuel
+      have hlen : "MULTILINESTRING(())".toList.length = 19 := by decide
+      rw [hlen] at hfuel
+      have hw := word_kw "MULTILINESTRING".toList (by decide) (by decide) ['(', ')', ')']
+      obtain ⟨e, he⟩ := polygonText_bad h [[]] (Or.inr ⟨[], by simp, rfl⟩) (by simp) fuel
+        (by simp [polyText, ringsText, ringText, pointsText, items, paren]; omega) []
+      refine ⟨e, ?_⟩
+      simp [polyText, ringsText, ringText, pointsText, items, paren, polygonText] at hw he ⊢
+      simp [tagged, multiLineStringText, hw, he, bind, Except.bind]
+    | cons l ls =>
+      refine ⟨_, encode_multiLineString fmt l ls, parse_err ?_⟩
+      intro fuel hfuel
+      have hbad : (l :: ls) = [] ∨ ∃ r ∈ l :: ls, r = [] := by
+        simp [everyMemberNonEmpty] at hne
+        by_cases hl : l = []
+        · exact Or.inr ⟨l, by simp, hl⟩
+        · exact Or.inr ⟨[], by simp [hne hl], rfl⟩
+      have hw := word_kw "MULTILINESTRING".toList (by decide) (by decide) (ringsText fmt (l :: ls) ++ [')'])
+      obtain ⟨e, he⟩ := polygonText_bad h (l :: ls) hbad (by simpa [allFinite] using hf) fuel
+        (by simp [polyText, ringsText, paren] at hfuel ⊢; omega) []
+      refine ⟨e, ?_⟩
+      simp [polyText, ringsText, paren, polygonText] at hw he ⊢
+      simp [tagged, multiLineStringText, hw, he, bind, Except.bind]
+  | multiPolygon ps =>
+    cases ps with
+    | nil =>
+      refine ⟨_, encode_multiPolygon_nil fmt, parse_err ?_⟩
+      intro fuel _
+      have hw := word_kw "MULTIPOLYGON".toList (by decide) (by decide) ['(', ')', ')']
+      obtain ⟨e, he⟩ := polygonText_empty (parseNum := parseNum) fuel [')']
+      cases fuel with
+      | zero => exact ⟨.fuel, by simp at hw ⊢; simp [tagged, hw, multiPolygonText, listText_paren, sepTail, bind, Except.bind]⟩
+      | succ f =>
+        obtain ⟨e, he⟩ := polygonText_empty (parseNum := parseNum) (f+1) [')']
+        refine ⟨e, ?_⟩
+        simp at hw he ⊢
+        simp [tagged, multiPolygonText, hw, listText_paren, sepTail, he, bind, Except.bind]
+    | cons p ps =>
+      refine ⟨_, encode_multiPolygon fmt p ps, parse_err ?_⟩
+      intro fuel hfuel
+      have hfin : ∀ x ∈ p :: ps, x.all (·.all (ptFinite fin)) = true := by
+        simpa [allFinite] using hf
+      let good : List (List (Pt F)) → Prop := fun rs => rs ≠ [] ∧ ∀ r ∈ rs, r ≠ []
+      have hex : ∃ x ∈ p :: ps, ¬ good x := by
+        simp [everyMemberNonEmpty] at hne
+        by_cases hp : good p
+        · obtain ⟨x, hx, hxx⟩ := hne hp.1 (fun r hr => hp.2 r hr)
+          exact ⟨x, by simp [hx], fun hgx => hgx.2 [] (hxx hgx.1) rfl⟩
+        · exact ⟨p, by simp, hp⟩
+      have hw := word_kw "MULTIPOLYGON".toList (by decide) (by decide)
+        (items ((p :: ps).map (polyText fmt)) ++ [')'])
+      have hlen : ∀ x ∈ p :: ps, (polyText fmt x).length ≤ fuel := by
+        intro x hx
+        have := items_mem_le (polyText fmt) (p :: ps) x hx
+        simp [paren] at this hfuel ⊢; omega
+      obtain ⟨e, he⟩ := sepTail_bad (polygonText parseNum fuel) (polyText fmt) good p ps
+        (fun x hx hgx d r _ => polygonText_poly h x hgx.1 hgx.2 (hfin x hx) fuel (hlen x hx) (d :: r))
+        (fun x hx hbx d r _ => polygonText_bad h x
+          (by
+            by_cases hx0 : x = []
+            · exact Or.inl hx0
+            · refine Or.inr ?_
+              have : ¬ ∀ r ∈ x, r ≠ [] := fun hall => hbx ⟨hx0, hall⟩
+              simpa using this)
+          (hfin x hx) fuel (hlen x hx) (d :: r))
+        hex [] fuel
+      refine ⟨e, ?_⟩
+      simp [paren] at hw he ⊢
+      simp [tagged, multiPolygonText, hw, listText_paren, he, bind, Except.bind]
+  | multiPoint _ => simp [supported] at hs
+  | collection _ => simp [supported] at hs
+  | bounds _ _ => simp [supported] at hs
+  | nil => simp [supported] at hs
+
+/-- **C17_guard_emitted**: what the encoder emits on the boundary of the guard (none of these is
+OGC text by `C17_guard_exact`; note that an empty Multi* and a Multi* holding one empty member are
+even mapped to the *same* text). -/
+theorem C17_guard_emitted (fmt : F → List Char) :
+    encode fmt (.lineString []) = .ok "LINESTRING()".toList ∧
+    encode fmt (.polygon []) = .ok "POLYGON()".toList ∧
+    encode fmt (.polygon [[]]) = .ok "POLYGON(())".toList ∧
+    encode fmt (.multiLineString []) = .ok "MULTILINESTRING(())".toList ∧
+    encode fmt (.multiLineString [[]]) = .ok "MULTILINESTRING(())".toList ∧
+    encode fmt (.multiPolygon []) = .ok "MULTIPOLYGON(())".toList ∧
+    encode fmt (.multiPolygon [[]]) = .ok "MULTIPOLYGON(())".toList ∧
+    encode fmt (.multiPolygon [[[]]]) = .ok "MULTIPOLYGON((()))".toList := by
+  refine ⟨rfl, rfl, rfl, rfl, rfl, rfl, rfl, rfl⟩
+
+/-! ### Non-vacuity -/
+
+/-- the contract is satisfiable (`C17_numfmt_int`), so `C17_roundtrip` is not vacuous: an instance -/
+example : ∃ txt, encode intFmt (.multiPolygon [[[⟨0, -12⟩, ⟨305, 7⟩], [⟨1, 1⟩]], [[⟨-40, 5⟩]]]) = .ok txt ∧
+    parse intOfLit txt = .ok (.multiPolygon [[[⟨0, -12⟩, ⟨305, 7⟩], [⟨1, 1⟩]], [[⟨-40, 5⟩]]]) :=
+  C17_roundtrip C17_numfmt_int _ rfl rfl rfl
+
+/-- the guard hypotheses are satisfiable and refutable -/
+example : everyMemberNonEmpty (.multiLineString [[(⟨1, 2⟩ : Pt Int)], []]) = false := rfl
+example : ∃ txt, encode intFmt (.multiLineString [[⟨1, 2⟩], []]) = .ok txt ∧
+    ∀ g', parse intOfLit txt ≠ .ok g' :=
+  C17_guard_exact C17_numfmt_int _ rfl rfl rfl
+
 end GeomV.C17
